@@ -40,6 +40,11 @@ CLAIMS = {
    "pinned code refuted by witnesses (F02 no clip, F13 Identity rows). PARTIAL: Integer log-uniform exactness only under an explicit accuracy hypothesis on pow/log10 (C09_int_any_prior_partial). "
    "Tie: functional correspondence (model run on numpy's own log/pow values as tables) + extracted oracle ok_C09 (proved equivalent to Spec_C09) on the implementation's exact float values, on generated dimensions, spaces and HpProblem conversions.",
    note="libm log10/pow and binary64 rounding are oracles (tolerances of 4-16 ulp scaled by the condition number on the log path, defined in c09.py); sklearn LabelBinarizer / numpy round, clip trusted."),
+ "C19": dict(cat="proof", text="Coq theorems over a rational, cell-wise model of the four aggregators (weights, numpy.ma masks = members dropped with renormalisation): uniform weights = None, rescaling and permutation invariance, masked = removed = weight 0, member splitting, "
+   "mean between the members' extremes, law of total variance for ANY weights (mixture variance = aleatoric + epistemic, all >= 0), aggregated probabilities form a distribution, confidence range and non-negative decomposition, entropy decomposition for any log oracle (Jensen under a concavity hypothesis), "
+   "mode = argmax of normalised weighted votes with uncertainty in range; homogeneity theorems justify the integer scaling; every boolean oracle is proved equivalent to its Spec; pinned behaviour refuted by witnesses (F18, F24, F28). "
+   "Tie: direct oracles and metamorphic oracles (extracted Coq checkers) on the implementation's outputs, then cell-wise functional correspondence (exact on dyadic inputs with power-of-two weight sums, 1e-9 of the cancelling terms otherwise) on generated members/shapes/weights/masks/options.",
+   note="numpy / numpy.ma primitives trusted; sqrt never compared (variances are); log values taken from numpy as oracle input."),
  "C11": dict(cat="proof", text="Coq theorems (all point sets, all visiting orders, no bound): the sweep model selects exactly one copy of every minimal vector "
    "(sound, complete, unique), the result does not depend on the visiting order, the peeled fronts partition the input, ranked(req) has min(n,req) points taken front by front. "
    "Tied to the code by functional correspondence (value sets) and by the extracted Coq oracles ok_nds/ok_ranked (reflection lemmas proved) applied to the implementation's "
